@@ -228,7 +228,11 @@ func (r *run) body(fs *fnState, args []reflect.Value) []reflect.Value {
 	outs := make([]reflect.Value, len(fs.out))
 	for i, t := range fs.out {
 		v := reflect.New(t).Elem()
-		if i == failing {
+		if i == failing && !reflect.TypeOf((*UserErr)(nil)).AssignableTo(t) {
+			// a value-typed error result (pool.VErr): its zero value already is a non-nil error
+			p.slot++
+			v.Set(reflect.Zero(t))
+		} else if i == failing {
 			p.slot++
 			if beh.TNil {
 				// the typed nil pointer: no identity of its own, so the run remembers whose it is
